@@ -643,6 +643,9 @@ func runC14(t *testing.T, spec RunSpec) *Verdict {
 	}
 	p := c14Corpus[pi]
 	cell := p.name + "/" + []string{"vm", "interp"}[backend]
+	if spec.P("first_in_process", 0) == 1 {
+		return runC14First(t, spec, p, backend)
+	}
 	base := c14Baseline(t, p, backend, spec.P("cancel_at_write", 0))
 	if ca := spec.P("cancel_at_write", 0); ca > 0 {
 		cell += fmt.Sprintf(":cancelled-in-write-%d", ca)
@@ -718,6 +721,41 @@ func runC14(t *testing.T, spec RunSpec) *Verdict {
 	return v
 }
 
+// runC14First: "results never depend on earlier runs in the same process", judged from the very first run.
+// The spec is executed in a process of its own (worker mode "one"): the program is run before anything
+// else has been analysed, then every targeted program is run once, then the program again. In a process
+// that is not fresh the first run is just another run and nothing can be concluded (never a false alarm).
+func runC14First(t *testing.T, spec RunSpec, p c14Prog, backend int) *Verdict {
+	const P = "C14"
+	v := &Verdict{}
+	cell := p.name + "/" + []string{"vm", "interp"}[backend] + ":first-run-of-the-process"
+	one := RunSpec{Property: P, Sim: c14SimParams(), Choices: &simrt.Sparse{}}
+	res, outs := c14Exec(t, one, []c14Prog{p}, backend)
+	v.absorb(P, res)
+	if res.Outcome != "ok" || len(outs) != 1 {
+		// crashes and the like are the business of the ordinary runs
+		v.Class, v.Clause, v.Msg, v.Sig = "", "", "", ""
+		return v
+	}
+	first := outs[0]
+	for _, q := range c14Targeted {
+		if q.name == p.name || readsClock(q.prog) {
+			continue
+		}
+		for b := 0; b < 2; b++ {
+			c14Exec(t, one, []c14Prog{q}, b)
+		}
+	}
+	res2, outs2 := c14Exec(t, one, []c14Prog{p}, backend)
+	if res2.Outcome != "ok" || len(outs2) != 1 {
+		return v
+	}
+	if comp, det := diffOutcome(outs2[0], first); comp != "" {
+		v.fail(P, "order-dependence", comp, cell, fmt.Sprintf("the first run of a fresh process and a run after %d other programs differ in %s: %s", len(c14Targeted)-1, comp, det))
+	}
+	return v
+}
+
 // readsClock: a program that prints the current time legitimately differs
 // between two runs at different simulated instants; it is not repeated in-process.
 func readsClock(p Program) bool {
@@ -787,6 +825,18 @@ func shrinkMapSites(spec RunSpec) []RunSpec {
 func planC14(t *testing.T, tier string, seed uint64) ([]RunSpec, error) {
 	loadCorpus()
 	var plan []RunSpec
+	// every targeted program once as the first thing a process does (executed by the supervisor in
+	// processes of their own; see runC14First)
+	var own []RunSpec
+	for pi, p := range c14Targeted {
+		if readsClock(p.prog) {
+			continue
+		}
+		for backend := 0; backend < 2; backend++ {
+			own = append(own, RunSpec{Property: "C14", Workload: "c14/" + p.name + "/" + []string{"vm", "interp"}[backend] + "/first-in-process", Params: map[string]int{"prog": pi, "backend": backend, "first_in_process": 1}, Sim: c14SimParams(), Choices: &simrt.Sparse{}})
+		}
+	}
+	ownProcessSpecs["C14"] = own
 	seeds := 10
 	if !quick(tier) {
 		seeds = 2500
